@@ -35,6 +35,42 @@ package mvs
 //@   trusted
 //@   modifies heap, smap
 
+// ---------------------------------------------------------------- C10: the repository memo is transparent
+// findProjectRepository memoises per project path. The answer for a project must not depend on which
+// other project was looked up first: every lookup and every registration uses the project's own key
+// (its path without the major-version suffix), and the sub-path registered for a well-known host is
+// the one derived from that key. (wk_* name the results of vcs.IsWellKnown, trimpv the result of
+// project.TrimPathVersion: both only compute on their argument string.)
+//@ specfn trimpv(string) string
+//@ specfn wk_ok(string) bool
+//@ specfn wk_rel(string) string
+//@ specfn wk_addr(string) string
+//@ smt <<<
+//@ (declare-fun trimpv (Str) Str)
+//@ (declare-fun wk_ok (Str) Bool)
+//@ (declare-fun wk_rel (Str) Str)
+//@ (declare-fun wk_addr (Str) Str)
+//@ >>>
+//@ func project.TrimPathVersion
+//@   trusted
+//@   ensures result == trimpv(p)
+//@ func vcs.IsWellKnown
+//@   trusted
+//@   ensures ok == wk_ok(address) && projectPath == wk_rel(address) && repoAddress == wk_addr(address)
+//@ func (mvs.Dialer).dialRepository
+//@   ensures result.1 == nil ==> result.0 != nil
+//@   modifies heap
+//@ func (*mvs.Resolver).findProjectRepository$1
+//@   ensures sub-path-of-the-key: (result.2 == nil && wk_ok(old(key))) ==> result.1 == wk_rel(old(key))
+//@   ensures repository-or-error: result.2 == nil ==> result.0 != nil
+//@   modifies heap
+//@ func (*mvs.Resolver).findProjectRepository
+//@   requires r != nil
+//@   callsite Load: assert looks-up-its-own-key: $1 == ifaceas("string", trimpv(projectPath))
+//@   callsite LoadOrStore: assert registers-under-its-own-key: $1 == ifaceas("string", trimpv(projectPath))
+//@   callsite LoadOrStore: assert registers-the-sub-path-of-the-key: wk_ok(trimpv(projectPath)) ==> $2.(*mvs.projectRepository).projectPath == wk_rel(trimpv(projectPath))
+//@   modifies heap, smap
+
 // The requirement edges handed to the MVS library: one edge per requirement name of the fetched
 // project's configuration, carrying that requirement's path and version (two names for one project
 // are two edges - their versions may differ, and the maximum must win).
